@@ -53,6 +53,9 @@ type env struct {
 	lastDelivered *kit.Reply
 	scion         bool
 	sw            *kit.SCIONWorld
+	srvWrongID    uint32
+	srvSends      uint32
+	srvTxMode     int // 0: kernel transmit timestamp readable, 1: none, 2: error-queue entry of another packet (wrong id)
 }
 
 type realServer struct {
@@ -75,6 +78,11 @@ func (e *env) judge() {
 		}
 		off := ntp.ClockOffset(tu.T0, tu.T1, tu.T2, tu.T3)
 		rtd := ex.Fwd + ex.Bwd[di]
+		// the exchange's own round-trip delay also contains whatever time the server
+		// held the reply after reading its transmit time
+		if m := ntp.RoundTripDelay(tu.T0, tu.T1, tu.T2, tu.T3); m > rtd {
+			rtd = m
+		}
 		if d := (off - ex.Theta).Abs(); d > rtd/2+200 {
 			e.x.Failf("offset-outside-half-rtd", "exchange %d: reported offset %v, true offset %v, round-trip delay %v", ex.N, off, ex.Theta, rtd)
 		}
@@ -174,6 +182,25 @@ func (e *env) serve(d *vnet.Datagram) []*kit.Reply {
 	return out
 }
 
+// serverStamp decides what the listener finds in its socket's error queue
+// after sending a reply.
+func (e *env) serverStamp(d *vnet.Datagram) *vnet.TxStamp {
+	ts := e.w.Clock.Peek()
+	defer func() { e.srvSends++ }()
+	switch e.srvTxMode {
+	case 1:
+		return &vnet.TxStamp{None: true}
+	case 2:
+		// the entry of some other packet: wrong id, unrelated time
+		e.srvWrongID += 7
+		return &vnet.TxStamp{TS: ts.Add(5 * time.Millisecond), ID: 1000 + e.srvWrongID}
+	}
+	// the kernel stamps the packet a little after the software reading
+	ts = ts.Add(3 * time.Microsecond)
+	e.srvTx[d.Seq] = ts
+	return &vnet.TxStamp{TS: ts, ID: e.srvSends}
+}
+
 // realServe passes the request through the repository's own listener.
 func (e *env) realServe(d *vnet.Datagram, fwd time.Duration) *kit.Reply {
 	s, w := e.s, e.w
@@ -182,6 +209,7 @@ func (e *env) realServe(d *vnet.Datagram, fwd time.Duration) *kit.Reply {
 	ex.Fwd = time.Since(s.SendTrue[d.Seq])
 	reqPayload, _, _ := s.T.Unwrap(d)
 	ntp.DecodePacket(&ex.Req, reqPayload)
+	e.srvTxMode = e.x.Choose(3, "srv-txts")
 	w.Clock.Offset += s.Theta
 	rx := w.Clock.Peek()
 	before := w.Net.NumSent()
@@ -194,6 +222,7 @@ func (e *env) realServe(d *vnet.Datagram, fwd time.Duration) *kit.Reply {
 	w.Settle()
 	stamp := w.Clock.Peek()
 	w.Clock.Offset -= s.Theta
+	time.Sleep(3 * time.Microsecond) // the reply leaves when the kernel stamps it (see serverStamp)
 	w.CheckPanics()
 	outs := w.Net.SentSince(before)
 	s.NewRequests() // skip the server's datagrams in the request scan
@@ -204,14 +233,29 @@ func (e *env) realServe(d *vnet.Datagram, fwd time.Duration) *kit.Reply {
 	ntp.DecodePacket(&ex.Resp, respPayload)
 	ex.SRx = ntp.TimeFromTime64(ex.Resp.ReceiveTime, rx)
 	_ = stamp
-	// the kernel transmit stamp the listener read back is what it recorded
+	// the kernel transmit stamp the listener read back is what it recorded; without
+	// one the exchange is dropped from the record, and the reply itself carries the
+	// software transmit time
 	ex.STx = e.srvTx[outs[0].Seq]
+	if ex.STx.IsZero() {
+		ex.STx = ntp.TimeFromTime64(ex.Resp.TransmitTime, rx)
+		ex.NoKernelTx = true
+	}
 	if ex.Resp.OriginTime == ex.Req.ReceiveTime && ex.Req.ReceiveTime != ex.Req.TransmitTime {
 		for _, o := range s.Exchs {
 			if o.Resp.ReceiveTime == ex.Req.OriginTime {
 				ex.Carries = o
 			}
 		}
+		if ex.Carries != nil && ex.Carries.NoKernelTx {
+			e.x.Failf("interleaved-reply-without-kernel-timestamp", "the listener answered in interleaved mode from exchange %d whose transmit timestamp it could not read (that exchange must have been dropped from its record)", ex.Carries.N)
+		}
+		if ex.Carries != nil && ex.Resp.TransmitTime != ntp.Time64FromTime(ex.Carries.STx) {
+			e.x.Failf("interleaved-reply-wrong-transmit", "interleaved reply carries transmit %v, the kernel stamped exchange %d at %v", ex.Resp.TransmitTime, ex.Carries.N, ntp.Time64FromTime(ex.Carries.STx))
+		}
+	} else {
+		// a basic reply carries the software transmit time
+		ex.STxAlt = ntp.TimeFromTime64(ex.Resp.TransmitTime, rx)
 	}
 	s.Exchs = append(s.Exchs, ex)
 	from := srvAddr
@@ -238,8 +282,7 @@ func program(r *mc.Run, interleaved, real, overSCION bool, calls int) func(x *mc
 				simHook := w.Net.OnSend
 				w.Net.OnSend = func(c *vnet.UDPConn, d *vnet.Datagram) *vnet.TxStamp {
 					if c == e.real.sock {
-						e.srvTx[d.Seq] = w.Clock.Peek()
-						return nil
+						return e.serverStamp(d)
 					}
 					return simHook(c, d)
 				}
@@ -252,9 +295,7 @@ func program(r *mc.Run, interleaved, real, overSCION bool, calls int) func(x *mc
 				simHook := w.Net.OnSend
 				w.Net.OnSend = func(c *vnet.UDPConn, d *vnet.Datagram) *vnet.TxStamp {
 					if c == e.real.sock {
-						ts := w.Clock.Peek()
-						e.srvTx[d.Seq] = ts
-						return nil // default: present, now, correct id
+						return e.serverStamp(d)
 					}
 					return simHook(c, d)
 				}
